@@ -174,10 +174,13 @@ ADDENDA = {
     "C07": "unknown-compression requests include lists of codings on one header line and on two",
     "C10": "a re-sent Request may carry a deadline too far away for the header to express",
     "C19": "recovery functions whose error quotes a panic value that is not valid UTF-8",
-    "C01": "codec marshal failures (plain and wrapping io.EOF) on some messages; " + TRANSPORT_HABITS,
+    "C01": "a sixth of the runs put an interceptor on one side that receives streamed messages through the conn-level API into two scratch "
+           "values used in turn; codec marshal failures (plain and wrapping io.EOF) on some messages; " + TRANSPORT_HABITS,
     "C02": "errors (plain or coded) whose cause wraps io.EOF; details whose type is not linked into the binary or that have no JSON form (the two listed open findings); errors received from another "
            "call and passed on; " + TRANSPORT_HABITS,
-    "C04": "cut conditions also include a transport error that has io.EOF in its chain and a reset with NO_ERROR; after a faulted delivery the program may keep receiving: the outcome must stay an error",
+    "C04": "a third of the exchanges have a read limit on the handler, an over-limit message mid-request and a handler that carries on "
+           "receiving; gRPC responses are also re-delivered with Response.Trailer complete from the start (an in-memory HTTPClient) and cut at "
+           "every offset with every failing end condition; cut conditions also include a transport error that has io.EOF in its chain and a reset with NO_ERROR; after a faulted delivery the program may keep receiving: the outcome must stay an error",
     "C05": "plain Go errors and error texts that are not valid UTF-8 in the live worlds (code and the rest of the text must arrive); the "
            "reference server answers before reading the request in a third of its successful answers; world (0) includes gateway handlers that return the Response, or pass on the Request, they got from a backend call in another protocol and "
            "encoding: the hop's own protocol and entity headers must describe the hop; " + TRANSPORT_HABITS,
@@ -188,7 +191,9 @@ ADDENDA = {
            "constructors are nil; instrumented (de)compressors report any use between Put and the next Get",
     "C11": "metadata under well-known HTTP field names the protocols do not use (Content-Language, Content-Location, Allow, Link, Etag, "
            "Server-Timing); unary Connect error bodies over the client's read limit or undecodable (the metadata must survive)",
-    "C13": "one client may be misconfigured so that every call fails locally (each call must get its own error value); clients may annotate the errors "
+    "C13": "a quarter of the unary HTTP/2 calls are retries of the very same Request after a first attempt that its deadline cut short, or "
+           "that the HTTPClient itself gave up on under a context that never ends - while the stub's HTTP/2 transport reads the request's "
+           "header map once more at a later step, as net/http's header-encoding goroutine may (race build); one client may be misconfigured so that every call fails locally (each call must get its own error value); clients may annotate the errors "
            "they receive",
     "C14": "a third of the calls run under a context that can be cancelled but outlives the call (the library's watcher must be gone "
            "when the call is); Do failures (nothing answers); calls refused by the protocol layer (compression the handler lacks), first messages that cannot be marshalled, programs that abandon a "
